@@ -46,6 +46,8 @@ ASSUMPTIONS = [
     "collections happen only where parsing is suspended: between `feed` calls (chunk boundaries) and at Script / "
     "EncodingIndicator returns — never inside the processing of a token",
     "a node returned to the embedder with a Script result is kept alive by the embedder",
+    "what a script does while parsing is suspended is modelled by detaching one node from its parent "
+    "(remove_from_parent through the sink) before the collection",
     "`every handle later passed to the sink is connected to a traced handle at every suspension point` is established "
     "by the oracle on the generated inputs x suspension points of the run (run-time checking), not proved for all "
     "inputs: that proof needs the tree-builder models (separate package); proved are the field coverage of "
@@ -55,7 +57,10 @@ RULE = ("suspension schedules over the C05 document families: fixed list (adopti
         "selects, frameset, foreign content, duplicate attributes, scripts) under ALL 2-partitions (scripting off) and "
         "one-character chunks (scripting off and on = Script pauses); seeded tag soup (7 themes, 25% fragment contexts, "
         "20% scripting) under one-character chunks and a random 2-partition (thorough: all 2-partitions); XML documents "
-        "likewise. A collection runs at every boundary / pause. non-trivial = >= 2 collections over >= 4 handle-bearing "
+        "likewise. A collection runs at every boundary / pause. `Script at work` families: at a Script pause (17 HTML, 5 XML "
+        "documents with scripts behind markers / in tables / templates / forms) or at a chunk boundary (fixed list, 3 cuts; "
+        "XML all cuts) the harness first detaches handle k (k = 1..13 / 1..8 / 1..4) from its parent through the sink, "
+        "then collects. non-trivial = >= 2 collections over >= 4 handle-bearing "
         "nodes; distinct = distinct (case, output). Self-test: the same fragment parses with the last reported handle "
         "dropped must show POISONED-HANDLE-USED")
 EXPLANATION = ("(a) every Handle-typed field of both tree builders is reported by trace_handles (by decide on regenerated "
@@ -74,6 +79,25 @@ def two_partitions(s):
 def per_char(s):
     return "|".join(hx(c) for c in s) if s else "-"
 
+
+# documents with Script pauses in many tree-builder situations (formatting elements behind markers, tables,
+# templates, forms, selects, head); a "script" detaches one node at the pause
+SCRIPT_DOCS = [
+    "<p><a>one</p><table><td><script>s</script>x</td></table><a>two",
+    "<p><b>one</p><table><caption><script>s</script>x</caption></table><b>two</b>y",
+    "<p><i>one</p><object><script>s</script>x</object><i>two",
+    "<div><em>one</div><template><script>s</script><td>x</template><em>two",
+    "<b><p><script>s</script>x</b>y", "<a><script>s</script><p>x</a>y", "<div><b><i><script>s</script></div>x</i>y",
+    "<table><tr><td><script>s</script></td></tr>x<tr><td>y</table>z", "<table><script>s</script><tr><td>x",
+    "<form><script>s</script><input><table><input></table>", "<select><option><script>s</script>x</option><option>y</select>",
+    "<head><script>s</script><title>t</title></head><body>x", "<script>a</script><script>b</script><p>x<b>y",
+    "<ul><li><script>s</script><li>x</ul>y", "<p><script>s</script><p>x", "<nobr>a<script>s</script><nobr>b<nobr>c",
+    "<html><body><div id=1><span><script>s</script></span>x</div><script>t</script>y",
+]
+XML_SCRIPT_DOCS = [
+    "<r><a/><script/><b/>t</r>", "<r><a><script>s</script><c/></a><b/></r>", "<r><script>s</script></r><!--c-->",
+    "<?p?><r><a/>x<b><c/></b>y</r>", "<r a='1'><a/><b/><c>t</c></r>",
+]
 
 SELFTEST = ["<td>a<b>x</b>y", "<tr><td>x<p>y</p><b>z", "<option>a<option>b", "<caption>x<b>y</b>z"]
 
@@ -118,6 +142,31 @@ def gen_cases(tier, rng):
             else:
                 for part in parts:
                     cases.append(("rcdom\tgc-xml\t-\t" + part, "xml-2part"))
+    # --- a script (or the embedder) detaches a node while parsing is suspended
+    KH = 14 if tier == "quick" else 24
+    for s in SCRIPT_DOCS:
+        nscripts = s.count("</script>")
+        for chunks, tg in ((hx(s), "detach-script-whole"), (per_char(s), "detach-script-chars")):
+            for n in range(nscripts):
+                for k in range(1, KH):
+                    cases.append(("rcdom\tgc-html\tdetach=%d@s%d\t%s" % (k, n, chunks), tg))
+    for s in fixed:
+        cuts = sorted(set([max(1, len(s) // 4), max(1, len(s) // 2), max(1, 3 * len(s) // 4)])) if tier == "quick" \
+            else range(1, len(s))
+        for i in cuts:
+            if i >= len(s):
+                continue
+            for k in range(1, 9 if tier == "quick" else 14):
+                cases.append(("rcdom\tgc-html\tdetach=%d@c0\t%s|%s" % (k, hx(s[:i]), hx(s[i:])), "detach-chunk"))
+    for s in E.XML_FIXED + XML_SCRIPT_DOCS:
+        for i in range(1, len(s)):
+            for k in range(1, 5):
+                cases.append(("rcdom\tgc-xml\tdetach=%d@c0\t%s|%s" % (k, hx(s[:i]), hx(s[i:])), "xml-detach-chunk"))
+    for s in XML_SCRIPT_DOCS:
+        for n in range(s.count("script") // 2 + 1):
+            for k in range(1, 6):
+                cases.append(("rcdom\tgc-xml\tdetach=%d@s%d\t%s" % (k, n, hx(s)), "xml-detach-script"))
+                cases.append(("rcdom\tgc-xml\tdetach=%d@s%d\t%s" % (k, n, per_char(s)), "xml-detach-script"))
     # self-test of the oracle's sensitivity: forget the handle reported last (the fragment context element)
     st_lines = ["rcdom\tgc-html\tfrag=%s,droplast\t%s" % (hx("tr" if s.startswith("<td") else "table" if s.startswith("<tr") or s.startswith("<caption") else "select"), per_char(s))
                 for s in SELFTEST]
